@@ -8,8 +8,8 @@ import (
 	"sort"
 
 	"github.com/hyperjumptech/grule-rule-engine/ast"
-	verif "github.com/hyperjumptech/grule-rule-engine/zzverif"
 	"github.com/hyperjumptech/grule-rule-engine/zzkb"
+	verif "github.com/hyperjumptech/grule-rule-engine/zzverif"
 )
 
 // ---------------------------------------------------------------- harness io
